@@ -35,6 +35,7 @@ def op_strategy(focus, pool):
         T(J('set_parent'), ti, opt, flag_any),
         T(J('set_children'), own, seq, form, flag_any),
         T(J('append'), own, ti, flag_any),
+        T(J('adopt_children'), own, own, flag_any),
         T(J('insert'), own, ti, st.integers(-1, 4), flag_any),
         T(J('remove'), own, ti, flag_any),
         T(J('move'), own, st.lists(ti, min_size=1, max_size=2), opt, opt, flag_any),
@@ -62,7 +63,7 @@ def op_strategy(focus, pool):
         T(J('list_lshift'), own, seq, flag_any),
         T(J('list_rshift'), own, seq, flag_any),
     ]
-    H = dict(zip(['set_parent', 'set_children', 'append', 'insert', 'remove', 'move', 'sort', 'reorder',
+    H = dict(zip(['set_parent', 'set_children', 'append', 'adopt_children', 'insert', 'remove', 'move', 'sort', 'reorder',
                   'remove_all', 'floordiv', 'bulk_parent', 'wbs_remove', 'wbs_remove_all', 'new_task'], hier))
     D = dict(zip(['set_preds', 'set_succs', 'pred_append', 'pred_remove', 'succ_append', 'succ_remove',
                   'pred_remove_all', 'succ_remove_all', 'lshift', 'rshift', 'list_lshift', 'list_rshift'], deps))
@@ -77,28 +78,28 @@ def op_strategy(focus, pool):
         T(J('list_rshift'), own, seq2, J('J')),
     ]
     if focus == 'general':
-        W = [(3, H['set_parent']), (3, H['set_children']), (3, H['append']), (2, H['insert']), (1, H['remove']),
+        W = [(3, H['set_parent']), (3, H['set_children']), (3, H['append']), (1, H['adopt_children']), (2, H['insert']), (1, H['remove']),
              (2, H['move']), (1, H['sort']), (1, H['reorder']), (1, H['remove_all']), (2, H['floordiv']),
              (1, H['bulk_parent']), (1, H['wbs_remove']), (1, H['wbs_remove_all']), (1, H['new_task']),
              (3, D['set_preds']), (3, D['set_succs']), (2, D['pred_append']), (1, D['pred_remove']),
              (2, D['succ_append']), (1, D['succ_remove']), (1, D['pred_remove_all']), (1, D['succ_remove_all']),
              (2, D['lshift']), (2, D['rshift']), (1, D['list_lshift']), (1, D['list_rshift'])]
     elif focus == 'collide':
-        W = [(5, H['set_parent']), (5, H['set_children']), (6, H['append']), (4, H['insert']), (1, H['remove']),
+        W = [(5, H['set_parent']), (5, H['set_children']), (6, H['append']), (1, H['adopt_children']), (4, H['insert']), (1, H['remove']),
              (1, H['move']), (3, H['floordiv']), (2, H['bulk_parent']), (1, H['wbs_remove']), (3, H['new_task']),
              (1, D['set_preds']), (1, D['pred_append'])]
     elif focus == 'membership':
-        W = [(4, H['set_parent']), (5, H['set_children']), (6, H['append']), (2, H['insert']), (4, H['remove']),
+        W = [(4, H['set_parent']), (5, H['set_children']), (6, H['append']), (1, H['adopt_children']), (2, H['insert']), (4, H['remove']),
              (1, H['move']), (3, H['remove_all']), (2, H['floordiv']), (2, H['bulk_parent']),
              (4, H['wbs_remove']), (3, H['wbs_remove_all']), (1, H['new_task']), (1, D['set_preds'])]
     elif focus == 'late':
-        W = [(2, H['set_parent']), (2, H['set_children']), (3, H['append']), (4, H['insert']), (1, H['remove']),
+        W = [(2, H['set_parent']), (2, H['set_children']), (3, H['append']), (1, H['adopt_children']), (4, H['insert']), (1, H['remove']),
              (5, H['move']), (3, H['sort']), (3, H['reorder']), (1, H['remove_all']), (1, H['floordiv']),
              (3, H['bulk_parent']), (1, H['wbs_remove']),
              (2, D['set_preds']), (2, D['set_succs']), (1, D['pred_append']), (1, D['succ_append']),
              (2, D['list_lshift']), (2, D['list_rshift'])] + [(2, o) for o in late_ops]
     elif focus == 'legal':
-        W = [(3, H['set_parent']), (3, H['set_children']), (3, H['append']), (4, H['insert']), (2, H['remove']),
+        W = [(3, H['set_parent']), (3, H['set_children']), (3, H['append']), (1, H['adopt_children']), (4, H['insert']), (2, H['remove']),
              (4, H['move']), (3, H['sort']), (3, H['reorder']), (2, H['remove_all']), (2, H['floordiv']),
              (1, H['bulk_parent']), (2, H['wbs_remove']), (1, H['wbs_remove_all']), (1, H['new_task']),
              (2, D['set_preds']), (2, D['set_succs']), (2, D['pred_append']), (2, D['pred_remove']),
@@ -172,7 +173,7 @@ def history(draw, focus='general', max_ops=24, large=False):
         def spread(o):
             return [((x * k + i) % u if isinstance(x, int) and not isinstance(x, bool) and x >= 0 and j > 0 and o[0] not in ('insert',) else x) for j, (i, x) in enumerate(zip(range(len(o)), o))]
         ops = [tuple(spread(list(o))) for o in ops]
-    case = {'ids': ids, 'nw': NW, 'held': draw(st.sampled_from([0, 0, 1, 2])), 'ops': [list(o) for o in pre] + [list(o) for o in ops]}
+    case = {'ids': ids, 'nw': NW, 'held': draw(st.sampled_from([0, 0, 1, 2])), 'iter': draw(st.integers(0, 3)) == 0, 'ops': [list(o) for o in pre] + [list(o) for o in ops]}
     if strids:
         f = lambda i: 'k%s' % i
         case['ids'] = [f(i) for i in ids]
@@ -291,6 +292,9 @@ def tiny_alphabet():
     for t in ts:
         for x in ts:
             ops.append(('pred_append', t, x, ''))
+    for o in owners:
+        for o2 in (0, 1, -1, o):
+            ops.append(('adopt_children', o, o2, ''))
     return ops
 
 
